@@ -338,8 +338,11 @@ void mmd_export_image_html(DString * out, const char * source, token * text, lin
 	}
 
 	if (is_figure) {
-		// Remove wrapping <p> markers
-		d_string_erase(out, out->currentStringLength - 3, 3);
+		// Remove wrapping <p> markers (a paragraph inside a tight list item has none)
+		if ((out->currentStringLength >= 3) &&
+				(strncmp(&(out->str[out->currentStringLength - 3]), "<p>", 3) == 0)) {
+			d_string_erase(out, out->currentStringLength - 3, 3);
+		}
 		print_const("<figure>\n");
 		scratch->close_para = false;
 	}
